@@ -490,8 +490,13 @@ JudgeOut judge(const json &plan)
 			for (auto &o : base.ops)
 				if (o.index == (int)i)
 					for (auto &c : o.cbs)
-						if (c.compare(0, 4, "act ") == 0)
+						if (c.compare(0, 4, "act ") == 0) {
 							acted = true;
+							if (c.find("MISMATCH") != std::string::npos)
+								out.viol.push_back({"O-reentry:nested_call_arguments", "op #" + std::to_string(i) + ": " + c, nullptr});
+						}
+			if (!out.viol.empty())
+				break;
 			if (!acted)
 				continue;
 			out.k.add("probe.callback_acted_on_another_context");
